@@ -200,6 +200,14 @@ def run(ctx) -> None:
                 i += 1
                 if i % ctx.nshards == ctx.shard:
                     ctx.do({"field": fname, "chain": list(chain), "value": value})
+    # every order of three position modifiers on strings, regular expressions and field references
+    for base in ((), ("re",), ("fieldref",)):
+        for trio in itertools.permutations(("contains", "startswith", "endswith"), 3):
+            for pair in (trio, trio[:2]):
+                for value in ("ab", "a*", "*a", "f"):
+                    i += 1
+                    if i % ctx.nshards == ctx.shard:
+                        ctx.do({"field": "f", "chain": list(base + pair), "value": value})
     ctx.extra["exhaustive_part"] = f"all chains of length <= {maxlen} over {len(MODS)} modifier names x {len(SEEDS)} seed values"
     ctx.hyp(random_cases(), 3000 if ctx.tier == "quick" else 40000)
 
@@ -216,7 +224,10 @@ def random_cases(draw):
                               ["windash", "contains"], ["windash", "contains", "all"], ["expand"], ["contains", "expand"],
                               ["fieldref"], ["fieldref", "startswith"], ["cased"], ["contains", "cased"], ["neq"],
                               ["contains", "neq"], ["gt"], ["minute", "gte"], ["exists"], ["utf16", "base64"],
-                              ["re", "contains"], ["re", "expand"], ["all", "contains", "windash"]])
+                              ["re", "contains"], ["re", "expand"], ["all", "contains", "windash"],
+                              ["fieldref", "startswith", "endswith"], ["fieldref", "contains", "endswith"], ["fieldref", "endswith", "startswith"],
+                              ["fieldref", "endswith", "contains"], ["fieldref", "startswith", "neq", "endswith"], ["startswith", "endswith"],
+                              ["endswith", "startswith"], ["contains", "startswith"], ["startswith", "contains", "all"], ["re", "startswith", "endswith"]])
     chain = draw(st.one_of(common, st.lists(st.sampled_from(MODS), min_size=n, max_size=n)))
     sval = st.lists(st.sampled_from(ALPHA + ["n" * 40, "m" * 70, "%" + "k" * 70 + "%"]), max_size=6).map("".join)
     scalar = st.one_of(sval, sval, st.sampled_from(SEEDS[:36]), st.integers(-3, 70), st.floats(allow_nan=True, allow_infinity=True, width=32),
